@@ -10,7 +10,7 @@ import (
 // temp directories, goroutines.
 func TestC18(t *testing.T) {
 	base := scratch(t)
-	events := []string{"dispense", "callback", "revcallback", "print:b"}
+	events := []string{"dispense", "callback", "revcallback", "print:b", "orphan"}
 	var hists [][]string
 	hists = append(hists, nil)
 	for _, a := range events {
